@@ -9,6 +9,7 @@ import (
 	"verif/harness/datebounds"
 	"verif/harness/datecompare"
 	"verif/harness/dates"
+	"verif/harness/document"
 	"verif/harness/nodeheap"
 )
 
@@ -27,6 +28,8 @@ func main() {
 		err = datecompare.Main(os.Args[2:])
 	case "dates":
 		err = dates.Main(os.Args[2:])
+	case "document":
+		err = document.Main(os.Args[2:])
 	case "nodeheap":
 		err = nodeheap.Main(os.Args[2:])
 	default:
